@@ -13,6 +13,7 @@ def allOps : List (String × (V → R V)) :=
   ++ offPolicyOps
   ++ tdOps
   ++ lossOps
+  ++ scheduleOps
 
 def dispatch (op : String) (a : V) : R V :=
   match allOps.find? (·.1 == op) with
